@@ -491,9 +491,11 @@ func (p *RegProcessor) processBdReq(c2sPayload *pb.C2SWrapper) (*pb.Registration
 	}
 
 	phantomSubnetSupportsRandPort := true
+	// Take the selector read lock once for both selections: read-locking a second time while a reload is
+	// waiting for the write lock deadlocks, and one hold also makes both selections use the same subnets.
+	p.selectorMutex.RLock()
+	defer p.selectorMutex.RUnlock()
 	if c2s.GetV4Support() {
-		p.selectorMutex.RLock()
-		defer p.selectorMutex.RUnlock()
 		phantom4, err := p.ipSelector.Select(
 			cjkeys.ConjureSeed,
 			uint(c2s.GetDecoyListGeneration()), //generation type uint
@@ -511,8 +513,6 @@ func (p *RegProcessor) processBdReq(c2sPayload *pb.C2SWrapper) (*pb.Registration
 	}
 
 	if c2s.GetV6Support() {
-		p.selectorMutex.RLock()
-		defer p.selectorMutex.RUnlock()
 		phantom6, err := p.ipSelector.Select(
 			cjkeys.ConjureSeed,
 			uint(c2s.GetDecoyListGeneration()),
